@@ -1,6 +1,6 @@
 (* Properties_C02.v -- the C02 theorems and nothing else. *)
 From Coq Require Import NArith ZArith List.
-From Qv Require Import gen.Tables EscapeModel TmplModel TmplRender TmplProofs TparseModel TparseRound TrenderModel TrenderProofs TfullModel TfullSem TfullParse TfullMain.
+From Qv Require Import gen.Tables EscapeModel TmplModel TmplRender TmplProofs TparseModel TparseRound TrenderModel TrenderProofs TfullModel TfullSem TfullParseMain TfullMain.
 Import ListNotations.
 
 (* The renderer of the implementation layer -- a tag tree with offsets into the
@@ -40,21 +40,23 @@ Proof. exact parse_print_leaves. Qed.
 Print Assumptions c02_parse_print_leaves.
 
 (* The C02 statement on the FAITHFUL models, end to end, for the fragment text +
-   {var:} + {raw:} + <loop set/value/group/sort> nested to any depth: parsing the
-   printed template with the parser model (TparseModel: the real scanner, stack,
-   attribute scanners and 8/16-bit fields) and rendering the resulting tree with the
-   renderer model (TrenderModel: slices, Level-indexed loop items, text-scanned
-   paths, every access checked), instantiated with the concrete value type, yields
-   exactly the documented expansion -- and every checked access succeeds (ROk).
-   wf_template (boolean, extracted, measured on the generator's output): no tag
-   characters in texts / names, paths and loop heads within the 8-bit fields, the
-   documented unique-name rule for indexed paths.  math, svar, inline if and if/else:
-   the full statement c02_full_statement is kept as a Definition; for them C02 rests
-   on c02_render_tree (abstracted renderer) + the correspondence run. *)
-Theorem c02_full_loops : forall auto w root ast, wf_template ast = true ->
+   {var:} + {raw:} + {math:} + <loop set/value/group/sort> + <if> / <else if> / <else>,
+   nested to any depth: parsing the printed template with the parser model
+   (TparseModel: the real scanner, stack, attribute scanners, expression parser and
+   8/16-bit fields) and rendering the resulting tree with the renderer model
+   (TrenderModel: slices, Level-indexed loop items, text-scanned paths, every access
+   checked), instantiated with the concrete value type and an evaluator of the
+   parsed expression lists, yields exactly the documented expansion -- and every
+   checked access succeeds (ROk).  wf_template (boolean, extracted, measured on the
+   generator's output in every run): no tag characters in texts / names, paths and
+   loop heads within the 8-bit fields, naturals below 10^19, the documented
+   unique-name rule for indexed paths, an <else> case last.  svar and inline if: the
+   full statement c02_full_statement is kept as a Definition; for them C02 rests on
+   c02_render_tree (abstracted renderer) + the correspondence run. *)
+Theorem c02_full_if_math : forall auto w root ast, wf_template ast = true ->
   render_all_jv auto w (print_nodes ast) root = ROk (expand auto w root ast).
-Proof. exact TfullMain.c02_full_loops. Qed.
-Print Assumptions c02_full_loops.
+Proof. exact TfullMain.c02_full_if_math. Qed.
+Print Assumptions c02_full_if_math.
 
 Theorem c02_parse_print : forall w ast, wf_template ast = true ->
   parse_model w (print_nodes ast) = Ok (tree_of_full ast).
